@@ -68,3 +68,14 @@ package embed
 //@   requires figure != nil
 //@   ensures [C01,C07] #no-element-renamed forall(x[*html.Node], implies(old(allocated(x)), x.Data == old(x.Data)))
 //@   loop 0 invariant forall(x[*html.Node], implies(old(allocated(x)), x.Data == old(x.Data)))
+
+// ---- lazy-image attribute rewriting: non-nil elements (C01) ----
+//@ func (*ImageExtractor).replaceLazyAttr(base)
+//@   requires ie != nil && base != nil
+//@   loop 0 invariant forall(i, 0 <= i && i < len(nodes), nodes[i] != nil)
+
+//@ func (*ImageExtractor).replaceLazySrcAttr(img)
+//@   requires ie != nil && img != nil
+
+//@ func (*ImageExtractor).replaceLazySrcsetAttr(img)
+//@   requires ie != nil && img != nil
